@@ -8,6 +8,8 @@ import (
 	"os"
 	"path/filepath"
 	"runtime"
+	"strconv"
+	"strings"
 	"sync"
 	"sync/atomic"
 	"time"
@@ -35,7 +37,10 @@ const (
 	followerID = models.NodeID(2)
 	dbName     = "c08db"
 	shardID    = models.ShardID(3)
-	pageSize   = 128 << 20
+	// the follower registers as followerHost:<port>; the port changes when it comes back "at another address"
+	followerHost      = "127.0.0.2"
+	followerFirstPort = 2891
+	pageSize          = 128 << 20
 )
 
 // ---------------------------------------------------------------------------------------------
@@ -73,53 +78,227 @@ func (f *fakeFamily) Release()                               {}
 func (f *fakeFamily) GetState() models.DataFamilyState       { return models.DataFamilyState{} }
 
 // ---------------------------------------------------------------------------------------------
-// storage.StateManager fake: live flag of the follower + the watchers the replicator registers.
+// storage.StateManager fake: live flag and address of the follower + the watchers the replicator registers.
 // One instance per leader incarnation (the watcher of a dead incarnation must never be called).
+//
+// It mirrors what coordinator/storage/state_manager.go does with a node event, including its locking discipline:
+// processEvent holds the manager's mutex (write) for the whole event - it updates the node map, calls every
+// registered watch handler (remoteReplicator.handleNodeStateChangeEvent) and, for a node failure, closes and
+// removes the node's pooled gRPC connection (rpc.ClientConnFactory.CloseClientConn) under that lock -
+// GetLiveNode takes the read lock, WatchNodeStateChangeEvent the write lock.
 // ---------------------------------------------------------------------------------------------
+
+// states of the directed schedule "online event in the window between the replicator's suspend flag and its liveness
+// re-check" (step fault onlineRecheckRace)
+const (
+	rwIdle     int32 = iota
+	rwArmed          // the next "not live" answer opens the window
+	rwPending        // "not live" was answered: the caller's next GetLiveNode call is the re-check
+	rwNotifier       // the re-check has been called; the node-startup event holds the manager's lock
+	rwDone           // the event has been processed completely (the lock is free again)
+)
 
 type fakeStateMgr struct {
 	storage.StateManager
+	w        *world
 	live     *atomic.Bool
-	mu       sync.Mutex
+	mutex    sync.RWMutex // the real manager's mutex, see above
 	watchers []func(state models.NodeStateType)
+	hookMu   sync.Mutex // harness bookkeeping only
 	// afterOfflineAnswer, if set, runs once right after GetLiveNode has decided to answer "not live"
 	// (the node comes online, and its notification is delivered, before the caller acts on the answer)
 	afterOfflineAnswer func()
+	recheckWindow      atomic.Int32
+	// goroutine ids (harness bookkeeping for the goroutine snapshots below): the goroutine that called GetLiveNode
+	// last - the replicator's - and the goroutine that runs the current / last node-startup event
+	callerGID, notifierGID atomic.Int64
+}
+
+// curGID returns the id of the calling goroutine.
+func curGID() int64 {
+	var buf [64]byte
+	return gidOf(string(buf[:runtime.Stack(buf[:], false)]))
+}
+
+// gidOf parses the id out of a goroutine's stack header ("goroutine 12 [running]:").
+func gidOf(g string) int64 {
+	const pfx = "goroutine "
+	if !strings.HasPrefix(g, pfx) {
+		return -1
+	}
+	g = g[len(pfx):]
+	if i := strings.IndexByte(g, ' '); i > 0 {
+		if id, err := strconv.ParseInt(g[:i], 10, 64); err == nil {
+			return id
+		}
+	}
+	return -1
+}
+
+func (m *fakeStateMgr) followerNode() models.StatefulNode {
+	return models.StatefulNode{
+		StatelessNode: models.StatelessNode{HostIP: followerHost, HostName: "follower", GRPCPort: uint16(m.w.fPort.Load())},
+		ID:            followerID,
+	}
 }
 
 func (m *fakeStateMgr) GetLiveNode(nodeID models.NodeID) (models.StatefulNode, bool) {
-	if nodeID != followerID || !m.live.Load() {
-		m.mu.Lock()
+	m.callerGID.Store(curGID())
+	if m.recheckWindow.CompareAndSwap(rwPending, rwNotifier) {
+		// directed schedule: the caller was told "not live" and asks again; the follower's node-startup event is
+		// processed by the manager now, and this call only goes on once that event holds the manager's lock
+		locked := make(chan struct{})
+		go func() {
+			m.nodeStartup(false, func() { close(locked) })
+			m.recheckWindow.Store(rwDone)
+		}()
+		<-locked
+	}
+	m.mutex.RLock()
+	live := nodeID == followerID && m.live.Load()
+	node := m.followerNode()
+	m.mutex.RUnlock()
+	if !live {
+		m.hookMu.Lock()
 		h := m.afterOfflineAnswer
 		m.afterOfflineAnswer = nil
-		m.mu.Unlock()
+		m.hookMu.Unlock()
 		if h != nil {
 			h()
 		}
+		m.recheckWindow.CompareAndSwap(rwArmed, rwPending)
 		return models.StatefulNode{}, false
 	}
-	return models.StatefulNode{
-		StatelessNode: models.StatelessNode{HostIP: "127.0.0.2", HostName: "follower", GRPCPort: 2891},
-		ID:            followerID,
-	}, true
+	return node, true
 }
 
 func (m *fakeStateMgr) WatchNodeStateChangeEvent(nodeID models.NodeID, fn func(state models.NodeStateType)) {
 	if nodeID != followerID {
 		return
 	}
-	m.mu.Lock()
+	m.mutex.Lock()
 	m.watchers = append(m.watchers, fn)
-	m.mu.Unlock()
+	m.mutex.Unlock()
 }
 
-func (m *fakeStateMgr) notify(st models.NodeStateType) {
-	m.mu.Lock()
-	ws := append([]func(models.NodeStateType){}, m.watchers...)
-	m.mu.Unlock()
-	for _, fn := range ws {
-		fn(st)
+// nodeStartup is stateManager.onNodeStartup under processEvent's lock: the node (with the address it registered) goes
+// into the live node map, then every watcher is told. moved: the follower registers with another address.
+func (m *fakeStateMgr) nodeStartup(moved bool, onLocked func()) {
+	m.notifierGID.Store(curGID())
+	m.mutex.Lock()
+	defer m.mutex.Unlock()
+	if onLocked != nil {
+		onLocked()
 	}
+	if moved {
+		m.w.fPort.Add(1)
+	}
+	m.live.Store(true)
+	for _, fn := range m.watchers {
+		fn(models.NodeOnline)
+	}
+}
+
+// nodeFailure is stateManager.onNodeFailure under processEvent's lock: a node that is not in the live node map is an
+// error (nothing happens); else it is removed, every watcher is told, and the node's pooled connection is closed.
+func (m *fakeStateMgr) nodeFailure() (wasLive, closedConn bool, killedStreams int) {
+	m.mutex.Lock()
+	defer m.mutex.Unlock()
+	if !m.live.Load() {
+		return false, false, 0
+	}
+	node := m.followerNode()
+	m.live.Store(false)
+	for _, fn := range m.watchers {
+		fn(models.NodeOffline)
+	}
+	closedConn, killedStreams = m.w.tr.closeClientConn(node.Indicator())
+	return true, closedConn, killedStreams
+}
+
+// goroutineDump returns the stacks of all goroutines, one element per goroutine (a consistent snapshot: the runtime
+// stops the world for it).
+func goroutineDump() []string {
+	buf := make([]byte, 1<<20)
+	for {
+		n := runtime.Stack(buf, true)
+		if n < len(buf) {
+			buf = buf[:n]
+			break
+		}
+		buf = make([]byte, 2*len(buf))
+	}
+	return strings.Split(string(buf), "\n\n")
+}
+
+func goroutineWaits(g string, reasons ...string) bool {
+	hdr := g
+	if i := strings.IndexByte(g, '\n'); i >= 0 {
+		hdr = g[:i]
+	}
+	for _, r := range reasons {
+		if strings.Contains(hdr, "["+r) {
+			return true
+		}
+	}
+	return false
+}
+
+// topFrame returns the innermost function of a goroutine's stack.
+func topFrame(g string) string {
+	lines := strings.SplitN(g, "\n", 3)
+	if len(lines) < 2 {
+		return ""
+	}
+	return lines[1]
+}
+
+// notifierDeadlocked reports a wait-for cycle between this state manager and the replicator, read off one goroutine
+// snapshot: the goroutine that runs the node-startup event is blocked SENDING inside
+// remoteReplicator.handleNodeStateChangeEvent below nodeStartup (it holds the manager's write lock and waits for the
+// suspended replicator to receive), and the replicator's goroutine - the only receiver of that send - is blocked in this
+// manager's GetLiveNode on the read lock. Neither can ever move again: no timeout is involved. Both goroutines are
+// identified by id (leftovers of earlier leader incarnations or sequences in this process do not count).
+func (m *fakeStateMgr) notifierDeadlocked() bool {
+	sender, waiter := false, false
+	sid, wid := m.notifierGID.Load(), m.callerGID.Load()
+	if sid == 0 || wid == 0 || sid == wid {
+		return false
+	}
+	for _, g := range goroutineDump() {
+		switch gidOf(g) {
+		case sid:
+			sender = strings.Contains(topFrame(g), "handleNodeStateChangeEvent") && strings.Contains(g, "(*fakeStateMgr).nodeStartup") && goroutineWaits(g, "chan send")
+		case wid:
+			waiter = strings.Contains(g, "(*fakeStateMgr).GetLiveNode") && goroutineWaits(g, "sync.RWMutex.RLock", "semacquire")
+		}
+	}
+	return sender && waiter
+}
+
+// notifierDeadlockedEvery looks at the goroutines once in 500 calls (polling loops of the free-running variant).
+func (m *fakeStateMgr) notifierDeadlockedEvery(tick *int) bool {
+	*tick++
+	return *tick%500 == 0 && m.notifierDeadlocked()
+}
+
+// replicatorParkedOnSuspend: the replicator's goroutine (the one that asked this manager last) is blocked receiving
+// inside remoteReplicator.IsReady (it waits for the follower's online notification), read off one goroutine snapshot.
+func (m *fakeStateMgr) replicatorParkedOnSuspend() bool {
+	id := m.callerGID.Load()
+	for _, g := range goroutineDump() {
+		if gidOf(g) != id {
+			continue
+		}
+		if !goroutineWaits(g, "chan receive") {
+			return false
+		}
+		// blocked receiving inside IsReady itself (or a helper of the replica package it calls), not inside a call
+		// IsReady makes into the harness (state manager, transport)
+		i := strings.Index(g, "(*remoteReplicator).IsReady")
+		return i >= 0 && !strings.Contains(g[:i], "\nmain.")
+	}
+	return false
 }
 
 // ---------------------------------------------------------------------------------------------
@@ -279,16 +458,40 @@ type sendRec struct {
 	GotResp   bool
 }
 
+// conn is what a *grpc.ClientConn of the leader's connection pool (rpc.ClientConnFactory) is to the replicator: every
+// ReplicaServiceClient is a stub bound to one of them for its whole life. A connection survives anything that happens
+// to the follower's process or to the network (gRPC reconnects by itself); it ends when it is closed - by the state
+// manager when the node goes offline (CloseClientConn removes it from the pool, the next GetClientConn dials a new
+// one), or with the leader's process - and then every call through a stub bound to it fails for ever.
+type conn struct {
+	id       int
+	target   string // the address it was dialled for
+	closed   atomic.Bool
+	reopened bool // dialled for an address whose previous connection had been closed by a node failure
+}
+
 type transport struct {
 	w       *world
 	handler *storagerpc.ReplicaHandler
-	mu      sync.Mutex // guards f, streams and the observations (the free-running variant arms faults from another goroutine)
+	mu      sync.Mutex // guards f, streams, the pool and the observations (the free-running variant arms faults from another goroutine)
 	f       faults
 	streams []*stream
+	// the leader's connection pool: target address -> connection (rpc.clientConnFactory.connMap)
+	pool           map[string]*conn
+	connSeq        int
+	closedTargets  map[string]bool // addresses whose pooled connection was closed by a node failure (this leader incarnation)
+	lastClientConn *conn           // connection of the most recently created client
+	// cumulative observations of the sequence
+	connsDialled, connsClosedByNodeFailure, closedConnCalls, staleAddrCalls int
+	// consecutive calls that went to a closed connection with no client created in between (free-running wedge rule)
+	closedConnCallsInARow int
 	// beforeStreamOpen, if set, runs once at the start of the next stream creation (after the handshake's unary calls)
 	beforeStreamOpen func()
 	// observations of the current step (reset by the driver)
 	obsCreateClient int
+	obsConnDialled  int
+	obsClosedConn   int     // calls made through a client whose connection is closed
+	obsStaleAddr    int     // calls made through a client whose connection goes to an address the follower left
 	obsGetAck       []int64 // answered values
 	obsGetAckErr    int
 	obsReset        []int64 // requested append index
@@ -344,6 +547,7 @@ func (t *transport) clearObs() {
 	t.mu.Lock()
 	defer t.mu.Unlock()
 	t.obsCreateClient, t.obsGetAck, t.obsGetAckErr, t.obsReset, t.obsResetErr = 0, nil, 0, nil, 0
+	t.obsConnDialled, t.obsClosedConn, t.obsStaleAddr = 0, 0, 0
 	t.obsStreamOpen, t.obsStreamErr, t.obsSends, t.fired = 0, 0, nil, nil
 }
 
@@ -355,19 +559,93 @@ type clientFactory struct {
 	t *transport
 }
 
+// CreateReplicaServiceClient is rpc.clientStreamFactory.CreateReplicaServiceClient: the pooled connection of the target
+// address (dialled if the pool has none) wrapped into a stub.
 func (c *clientFactory) CreateReplicaServiceClient(target models.Node) (protoReplicaV1.ReplicaServiceClient, error) {
 	t := c.t
-	t.obs(func() { t.obsCreateClient++ })
+	t.obs(func() { t.obsCreateClient++; t.closedConnCallsInARow = 0 })
 	if t.take(&t.f.createClient, "createClient") {
 		return nil, errors.New("injected: cannot create client connection")
 	}
-	return &client{t: t}, nil
+	return &client{t: t, conn: t.getClientConn(target.Indicator())}, nil
 }
 
-type client struct{ t *transport }
+// getClientConn is rpc.clientConnFactory.GetClientConn.
+func (t *transport) getClientConn(target string) *conn {
+	t.mu.Lock()
+	defer t.mu.Unlock()
+	if t.pool == nil {
+		t.pool, t.closedTargets = map[string]*conn{}, map[string]bool{}
+	}
+	cn := t.pool[target]
+	if cn == nil {
+		t.connSeq++
+		cn = &conn{id: t.connSeq, target: target, reopened: t.closedTargets[target]}
+		t.pool[target] = cn
+		t.connsDialled++
+		t.obsConnDialled++
+	}
+	t.lastClientConn = cn
+	return cn
+}
+
+// closeClientConn is rpc.clientConnFactory.CloseClientConn: the pooled connection of the address, if there is one, is
+// closed and removed; everything that runs over it (the replica streams) dies with it.
+func (t *transport) closeClientConn(target string) (closed bool, killedStreams int) {
+	t.mu.Lock()
+	cn := t.pool[target]
+	if cn != nil {
+		delete(t.pool, target)
+		cn.closed.Store(true)
+		t.closedTargets[target] = true
+		t.connsClosedByNodeFailure++
+	}
+	t.mu.Unlock()
+	if cn == nil {
+		return false, 0
+	}
+	// all live streams run over this connection (streams of connections to addresses the follower left are dead already)
+	return true, t.breakAll()
+}
+
+// dropPool: the leader's process ends, its connections with it; the next incarnation starts with an empty pool.
+func (t *transport) dropPool() {
+	t.mu.Lock()
+	for _, cn := range t.pool {
+		cn.closed.Store(true)
+	}
+	t.pool, t.closedTargets, t.lastClientConn = nil, nil, nil
+	t.mu.Unlock()
+}
+
+var errConnClosing = status.Error(codes.Canceled, "grpc: the client connection is closing")
+
+type client struct {
+	t    *transport
+	conn *conn
+}
+
+// connErr is what any call through this stub fails with before it reaches the follower: its connection is closed, or
+// nobody listens any more at the address the connection goes to.
+func (c *client) connErr() error {
+	t := c.t
+	if c.conn.closed.Load() {
+		t.obs(func() { t.obsClosedConn++; t.closedConnCalls++; t.closedConnCallsInARow++ })
+		return errConnClosing
+	}
+	if c.conn.target != t.w.followerAddr() {
+		t.obs(func() { t.obsStaleAddr++; t.staleAddrCalls++ })
+		return errUnavailable
+	}
+	return nil
+}
 
 func (c *client) GetReplicaAckIndex(ctx context.Context, in *protoReplicaV1.GetReplicaAckIndexRequest, _ ...grpc.CallOption) (*protoReplicaV1.GetReplicaAckIndexResponse, error) {
 	t := c.t
+	if err := c.connErr(); err != nil {
+		t.obs(func() { t.obsGetAckErr++ })
+		return nil, err
+	}
 	if t.take(&t.f.getAck, "getAck") {
 		t.obs(func() { t.obsGetAckErr++ })
 		return nil, errUnavailable
@@ -391,6 +669,10 @@ func (c *client) GetReplicaAckIndex(ctx context.Context, in *protoReplicaV1.GetR
 
 func (c *client) Reset(ctx context.Context, in *protoReplicaV1.ResetIndexRequest, _ ...grpc.CallOption) (*protoReplicaV1.ResetIndexResponse, error) {
 	t := c.t
+	if err := c.connErr(); err != nil {
+		t.obs(func() { t.obsResetErr++ })
+		return nil, err
+	}
 	if t.take(&t.f.reset, "reset") {
 		t.obs(func() { t.obsResetErr++ })
 		return nil, errUnavailable
@@ -419,6 +701,10 @@ func (c *client) Reset(ctx context.Context, in *protoReplicaV1.ResetIndexRequest
 func (c *client) Replica(ctx context.Context, _ ...grpc.CallOption) (protoReplicaV1.ReplicaService_ReplicaClient, error) {
 	t := c.t
 	t.obs(func() { t.obsStreamOpen++ })
+	if err := c.connErr(); err != nil {
+		t.obs(func() { t.obsStreamErr++ })
+		return nil, err
+	}
 	// the window between the handshake (unary calls) and the stream: the follower may restart in it
 	t.mu.Lock()
 	hook := t.beforeStreamOpen
@@ -691,6 +977,10 @@ type snapshot struct {
 	appended int64
 	event    int
 	line     map[int64]int // position -> uid of the harness payload the log contained there when the copy was taken
+	// when the copy was taken: the driver's event counter, and whether the leader's ack for the follower was then
+	// allowed to be ahead of the follower (the follower had lost its log and no handshake had completed since)
+	tick         int
+	ackSuspended bool
 }
 
 // prefixOf reports whether everything the snapshot's log contained is still what the log contains now:
@@ -714,7 +1004,8 @@ type world struct {
 	shard  *fakeShard
 	family *fakeFamily
 
-	live *atomic.Bool
+	live  *atomic.Bool
+	fPort atomic.Int32 // port of the address the follower is registered with
 
 	// leader
 	lUp   bool
@@ -750,6 +1041,14 @@ type world struct {
 	metaMismatch    string
 	onlineRaceFired bool
 	notWoken        bool // an online notification was delivered and the parked replicator stayed parked
+	// deadlocked: the state manager's node-startup event (holding the manager's lock) and the replicator (waiting for
+	// that lock) wait for each other - see notifierDeadlocked
+	deadlocked         bool
+	recheckWindowFired bool // the directed schedule onlineRecheckRace delivered its event inside the window
+}
+
+func (w *world) followerAddr() string {
+	return fmt.Sprintf("%s:%d", followerHost, w.fPort.Load())
 }
 
 func newWorld(base string) (*world, error) {
@@ -765,6 +1064,7 @@ func newWorld(base string) (*world, error) {
 	w.shard = &fakeShard{db: &fakeDB{opt: opt}}
 	w.live = &atomic.Bool{}
 	w.live.Store(true)
+	w.fPort.Store(followerFirstPort)
 	w.tr = &transport{w: w}
 	w.tr.handler = storagerpc.NewReplicaHandler(&fakeWALMgr{w: w})
 	if err := w.startLeader(); err != nil {
@@ -782,7 +1082,7 @@ func (w *world) startLeader() error {
 		return err
 	}
 	w.lLog = q
-	w.lSM = &fakeStateMgr{live: w.live}
+	w.lSM = &fakeStateMgr{w: w, live: w.live}
 	w.lPart = replica.NewPartition(w.ctx, w.shard, w.family, leaderID, q, &clientFactory{t: w.tr}, w.lSM)
 	if err := w.lPart.BuildReplicaForLeader(leaderID, []models.NodeID{followerID}); err != nil {
 		return err
@@ -810,6 +1110,7 @@ func (w *world) stopLeader() {
 	w.parked = nil
 	w.lPart.Stop()
 	w.tr.breakAll()
+	w.tr.dropPool()
 	_ = w.lPart.Close()
 	w.lUp = false
 	w.lRep, w.lCG, w.lLog, w.lPart, w.lSM = nil, nil, nil, nil, nil
@@ -898,7 +1199,7 @@ func (w *world) close() {
 	w.cancel()
 }
 
-func (w *world) snap(side string, event int, uids map[int64]int) {
+func (w *world) snap(side string, event int, uids map[int64]int, tick int, ackSuspended bool) {
 	cp := make(map[int64]int, len(uids))
 	for k, v := range uids {
 		cp[k] = v
@@ -910,7 +1211,7 @@ func (w *world) snap(side string, event int, uids map[int64]int) {
 			return
 		}
 		if _, err := imgfs.CopyTree(w.leaderDir, dst, nil); err == nil {
-			w.lSnaps = append(w.lSnaps, snapshot{dir: dst, appended: w.lLog.Queue().AppendedSeq(), event: event, line: cp})
+			w.lSnaps = append(w.lSnaps, snapshot{dir: dst, appended: w.lLog.Queue().AppendedSeq(), event: event, line: cp, tick: tick, ackSuspended: ackSuspended})
 		}
 		return
 	}
@@ -918,7 +1219,7 @@ func (w *world) snap(side string, event int, uids map[int64]int) {
 		return
 	}
 	if _, err := imgfs.CopyTree(w.followerDir, dst, nil); err == nil {
-		w.fSnaps = append(w.fSnaps, snapshot{dir: dst, appended: w.fReal.Queue().AppendedSeq(), event: event, line: cp})
+		w.fSnaps = append(w.fSnaps, snapshot{dir: dst, appended: w.fReal.Queue().AppendedSeq(), event: event, line: cp, tick: tick, ackSuspended: ackSuspended})
 	}
 }
 
@@ -959,7 +1260,6 @@ func (w *world) prepare() (ready, parked bool) {
 	go func() { res <- replica.VerifReplicaPrepare(r) }()
 	// IsReady either returns or parks on its suspend channel after having published the "offline" state.
 	// Both are recognised from state, not from time.
-	var offlineSince time.Time
 	for i := 0; ; i++ {
 		select {
 		case ok := <-res:
@@ -968,40 +1268,100 @@ func (w *world) prepare() (ready, parked bool) {
 		}
 		st, msg := replica.VerifReplicatorStateType(r)
 		if st == int(models.ReplicatorFailureState) && msg == offlineMsg {
+			switch w.lSM.recheckWindow.Load() {
+			case rwPending:
+				// directed schedule: IsReady was told "not live" and has published it; it either asks again (the window
+				// opens) or it is an IsReady that parks without asking again - told apart by where its goroutine stands
+				if i > 50 && i%20 == 0 && w.lSM.replicatorParkedOnSuspend() {
+					w.lSM.recheckWindow.Store(rwIdle)
+				}
+				pace(i)
+				continue
+			case rwNotifier:
+				// the node-startup event holds the manager's lock and tells the replicator; the replicator waits for that
+				// lock. Either the event completes (rwDone) or both wait for each other for ever.
+				if i > 50 && i%20 == 0 && w.lSM.notifierDeadlocked() {
+					w.deadlocked = true
+					w.parked = res
+					return false, true
+				}
+				pace(i)
+				continue
+			}
 			if !w.live.Load() {
-				w.parked = res
-				return false, true
+				// the follower is offline and IsReady has published that it will wait: it counts as parked once its
+				// goroutine really stands in the receive (past its last look at the live nodes) - a goroutine that is
+				// called parked before that could still see a later liveness change of a leader incarnation that is gone
+				if i%20 == 10 && w.lSM.replicatorParkedOnSuspend() {
+					w.parked = res
+					return false, true
+				}
+				pace(i)
+				continue
 			}
-			// "offline" is published although the follower is live by now: either IsReady is about to park (lost
-			// wake-up) or it noticed and moves on at once. The state must persist before it is called parked.
-			if offlineSince.IsZero() {
-				offlineSince = time.Now()
-			} else if time.Since(offlineSince) > 300*time.Millisecond {
-				w.parked = res
-				return false, true
+			// "offline" is published although the follower is live by now: either IsReady has parked (lost wake-up) or
+			// it noticed and moves on. Told apart by where its goroutine stands, not by how long it takes.
+			if i > 50 && i%20 == 0 {
+				if w.lSM.replicatorParkedOnSuspend() {
+					w.parked = res
+					return false, true
+				}
+				if w.lSM.notifierDeadlocked() {
+					w.deadlocked = true
+					w.parked = res
+					return false, true
+				}
 			}
-		} else {
-			offlineSince = time.Time{}
 		}
-		if i < 200 {
-			runtime.Gosched()
-		} else {
-			time.Sleep(50 * time.Microsecond)
-		}
+		pace(i)
 	}
 }
 
-// online marks the follower live and delivers the notification; a parked Prepare then runs its handshake.
-func (w *world) online() (woken, ready bool) {
-	w.live.Store(true)
-	if w.lUp {
-		w.lSM.notify(models.NodeOnline)
+// pace: polling rhythm of the driver (never a verdict).
+func pace(i int) {
+	if i < 200 {
+		runtime.Gosched()
+	} else {
+		time.Sleep(50 * time.Microsecond)
+	}
+}
+
+// online: the follower registers (again) - at the same address, or (moved) at another one, which it can only do after
+// having left the old one: whatever ran over connections to the old address is dead - and the leader's state manager
+// processes the node-startup event; a parked Prepare then runs its handshake.
+func (w *world) online(moved bool) (woken, ready bool) {
+	if moved {
+		w.tr.breakAll()
+	}
+	if !w.lUp {
+		if moved {
+			w.fPort.Add(1)
+		}
+		w.live.Store(true)
+		return false, false
+	}
+	// the event is processed on the state manager's own goroutine (its event loop), holding the manager's lock
+	done := make(chan struct{})
+	m := w.lSM
+	go func() { m.nodeStartup(moved, nil); close(done) }()
+	for i := 0; ; i++ {
+		select {
+		case <-done:
+		default:
+			if i > 50 && i%20 == 0 && w.lSM.notifierDeadlocked() {
+				w.deadlocked = true
+				return false, false
+			}
+			pace(i)
+			continue
+		}
+		break
 	}
 	if w.parked != nil {
 		// the notification has been delivered (the replicator's handler has returned): a parked IsReady has received
-		// its wake-up or never will through this notification. Grace period only for the goroutine to get scheduled.
-		deadline := time.Now().Add(5 * time.Second)
-		for {
+		// its wake-up (its goroutine is runnable or running) or never will through this notification (it still stands
+		// blocked in its receive) - read off a goroutine snapshot, not off a clock.
+		for i := 0; ; i++ {
 			select {
 			case ready = <-w.parked:
 				w.parked = nil
@@ -1014,11 +1374,11 @@ func (w *world) online() (woken, ready bool) {
 				w.parked = nil
 				return true, ready
 			}
-			if time.Now().After(deadline) {
+			if i > 50 && i%20 == 0 && w.lSM.replicatorParkedOnSuspend() {
 				w.notWoken = true
 				return false, false
 			}
-			time.Sleep(100 * time.Microsecond)
+			pace(i)
 		}
 	}
 	return false, false
@@ -1028,26 +1388,40 @@ func (w *world) online() (woken, ready bool) {
 // is delivered before IsReady gets to park.
 func (w *world) armOnlineRace() {
 	m := w.lSM
-	m.mu.Lock()
+	m.hookMu.Lock()
 	m.afterOfflineAnswer = func() {
-		w.live.Store(true)
-		m.notify(models.NodeOnline)
+		m.nodeStartup(false, nil)
 		w.onlineRaceFired = true
 	}
-	m.mu.Unlock()
+	m.hookMu.Unlock()
+}
+
+// armRecheckWindow: the next time IsReady is told "follower not live" and, having published that and raised its suspend
+// flag, asks the state manager AGAIN before it parks, the follower's node-startup event is processed exactly in
+// between: it holds the manager's lock and notifies the replicator while the replicator's second question waits for
+// that lock.
+func (w *world) armRecheckWindow() {
+	w.recheckWindowFired = false
+	w.lSM.recheckWindow.Store(rwArmed)
 }
 
 func (w *world) disarmOnlineRace() {
 	if w.lSM != nil {
-		w.lSM.mu.Lock()
+		w.lSM.hookMu.Lock()
 		w.lSM.afterOfflineAnswer = nil
-		w.lSM.mu.Unlock()
+		w.lSM.hookMu.Unlock()
+		if st := w.lSM.recheckWindow.Swap(rwIdle); st == rwNotifier || st == rwDone {
+			w.recheckWindowFired = true
+		}
 	}
 }
 
-func (w *world) offline() {
-	w.live.Store(false)
-	if w.lUp {
-		w.lSM.notify(models.NodeOffline)
+// offline: the cluster reports the follower gone (session lost, node stopped ...); the leader's state manager
+// processes the node-failure event.
+func (w *world) offline() (wasLive, closedConn bool, killedStreams int) {
+	if !w.lUp {
+		wasLive = w.live.Swap(false)
+		return wasLive, false, 0
 	}
+	return w.lSM.nodeFailure()
 }
